@@ -57,6 +57,24 @@ impl<'a> ArxmlParser<'a> {
     }
 }
 
+// callees of check_arxml_header that are not under contract here (C18 covers ElementName::from_bytes; parse_attribute_text and
+// parse_file_header are string-layer / version code): arbitrary results, no panic assumed
+pub struct Attribute { pub opaque: u8 }
+pub struct ElementType { pub opaque: u8 }
+pub struct SmallVecAttr { pub opaque: u8 }
+#[verifier::external_body]
+pub fn vx_root_type() -> ElementType { unimplemented!() }
+impl ElementName {
+    #[verifier::external_body]
+    pub fn from_bytes(b: &[u8]) -> (r: Result<ElementName, ()>) { unimplemented!() }
+}
+impl<'a> ArxmlParser<'a> {
+    #[verifier::external_body]
+    pub fn parse_attribute_text(&mut self, elemtype: ElementType, attributes_text: &[u8]) -> (r: Result<SmallVecAttr, AutosarDataError>) { unimplemented!() }
+    #[verifier::external_body]
+    pub fn parse_file_header(&mut self, attributes: &SmallVecAttr) -> (r: Result<(), AutosarDataError>) { unimplemented!() }
+}
+
 pub open spec fn parser_err(p: &ArxmlParser, err: ArxmlParserError) -> AutosarDataError {
     AutosarDataError::ParserError { filename: p.filename, line: p.line, source: err }
 }
@@ -74,6 +92,7 @@ def fns():
         FnSpec('new', F, impl=IMPL_P, ret='r', label='ArxmlParser.new', sig_sub=[(r'pub\(crate\) fn', 'pub fn')],
                ensures=['r.line == 1', 'r.strict == strict', 'r.warnings@.len() == 0', 'r.buffer == buffer', 'r.version_compatibility == u32::MAX']),
         FnSpec('next', F, impl=IMPL_P, ret='r', label='ArxmlParser.next',
+               sig_sub=[(r"lexer: &'b mut ArxmlLexer\)", "lexer: &mut ArxmlLexer<'b>)")],
                requires=['old(lexer).inv()'],
                ensures=['final(lexer).inv() && final(lexer).same_buf(old(lexer))',
                         'final(lexer).measure() <= old(lexer).measure()',
@@ -91,6 +110,19 @@ def fns():
                         '(old(self).fileversion as u32) & item_version != 0 ==> r.is_ok() && final(self).warnings@ == old(self).warnings@',
                         '(old(self).fileversion as u32) & item_version == 0 && old(self).strict ==> r == Err::<(), AutosarDataError>(parser_err(old(self), error)) && final(self).warnings@ == old(self).warnings@',
                         '(old(self).fileversion as u32) & item_version == 0 && !old(self).strict ==> r.is_ok() && final(self).warnings@ == old(self).warnings@.push(parser_err(old(self), error))']),
+        FnSpec('verify_end_of_input', F, impl=IMPL_P, ret='r',
+               requires=['old(lexer).inv()'],
+               ensures=['final(lexer).inv() && final(lexer).same_buf(old(lexer))', 'final(self).same_mode(old(self))',
+                        # C08: data after the root element is never accepted by strict loading -- in strict mode, success means the
+                        # lexer ran to the end of the buffer without meeting another token
+                        'old(self).strict && r is Ok ==> final(lexer).bufpos == final(lexer).buffer.len() && final(self).warnings@ == old(self).warnings@',
+                        '!old(self).strict && r is Ok ==> final(self).warnings@ == old(self).warnings@ || final(self).warnings@ == old(self).warnings@.push(parser_err(old(self), ArxmlParserError::AdditionalDataError))']),
+        FnSpec('check_arxml_header', F, impl=IMPL_P, ret='r', sig_sub=[(r'pub\(crate\) fn', 'pub fn')],
+               body_sub=[(r'while let (Ok\(ArxmlEvent::Comment\(\.\.\)\)) = (\w+) \{', lambda m: 'while matches!(%s, %s) {' % (m.group(2), m.group(1)), 'R29'),
+                         (r'ElementType::ROOT', lambda m: 'vx_root_type()', 'R29')],
+               requires=['old(self).buffer.len() <= isize::MAX'],
+               loops={0: dict(invariant=['lexer.inv()'],
+                              decreases='lexer.measure() + (if matches!(arxmlevent, Ok(ArxmlEvent::Comment(..))) { 1int } else { 0int })')}),
     ]
 
 
